@@ -127,8 +127,11 @@ func C13(tier common.Tier) int {
 								blocks := []e1.UseBlock{{Encl: encl, File: file, Stmts: st}, {Encl: e1.UEStructField, File: 1}}
 								base := &e1.UseSpec{Pkg: pk, Mix: mix, Sites: useSites, Blocks: blocks}
 								bb, brest, bcrash, _ := e1.UseObserve(fam, base)
-								for _, sp := range []e1.Spell{e1.SpLocalAlias, e1.SpThirdAlias, e1.SpRenamedImp, e1.SpDotImport, e1.SpBodyAlias, e1.SpMixedAlias} {
-									if pk.Path == e1.PathD && sp != e1.SpLocalAlias && sp != e1.SpMixedAlias {
+								for _, sp := range []e1.Spell{e1.SpLocalAlias, e1.SpThirdAlias, e1.SpRenamedImp, e1.SpDotImport, e1.SpBodyAlias, e1.SpMixedAlias, e1.SpDeclAlias, e1.SpDeclAliasDot} {
+									if pk.Path != e1.PathD && sp == e1.SpDeclAlias {
+										continue // importers name the declaring package's alias bare, under a dot import (the next spelling)
+									}
+									if pk.Path == e1.PathD && sp != e1.SpLocalAlias && sp != e1.SpMixedAlias && sp != e1.SpDeclAlias {
 										continue
 									}
 									v := *base
